@@ -809,6 +809,17 @@ func fillReal(buff [][2]*big.Float, values []float64) {
 	}
 }
 
+// OUTALIAS control: the rotation by zero hands the input back
+func (e fixEvaluator) RotateMany(ctIn *rlwe.Ciphertext, ks []int, opOut map[int]*rlwe.Ciphertext) {
+	for _, k := range ks {
+		if k == 0 {
+			opOut[k] = ctIn
+			continue
+		}
+		e.r.Add(ctIn.Value[0], ctIn.Value[1], opOut[k].Value[0])
+	}
+}
+
 // INDEG control: the first two components of the input, whatever its degree
 func (e fixEvaluator) SumTwo(ctIn, opOut *rlwe.Ciphertext) {
 	e.r.Add(ctIn.Value[0], ctIn.Value[1], opOut.Value[0])
